@@ -410,7 +410,16 @@ impl Expansion<'_> {
                         ));
                     }
                     Some(FieldAttribute::Left(_skip)) => {}
-                    None => out.extend([parse_quote! { #ty: derive_more::core::fmt::Debug }]),
+                    None => {
+                        // `&T: Debug` holds iff `T: Debug`. Bounding the referent avoids a
+                        // `&'a T: Debug` predicate, which rustc would prefer over the blanket
+                        // impl for every `&'_ T` in the body (forcing its lifetime to `'a`).
+                        let mut ty = ty;
+                        while let syn::Type::Reference(r) = ty {
+                            ty = &r.elem;
+                        }
+                        out.extend([parse_quote! { #ty: derive_more::core::fmt::Debug }])
+                    }
                 }
                 Ok(out)
             })
